@@ -38,7 +38,7 @@ ASSUMPTIONS = [
     "the theorems are stated for the token loop of one command level (Parser::parse's while loop = parse_loop) with an "
     "arbitrary parser state at the `--`; that the loop reaches the `--` in the same state whatever follows it is "
     "checked by the correspondence run and the metamorphic oracle, not proved",
-    "C05_tail_verbatim / C05_values_delivered are proved for the class `sink` (after the `--` every token goes to one "
+    "C05_tail_verbatim is proved for the class `sink` (after the `--` every token goes to one "
     "multi-valued positional without terminator: the last positional when `last`/allow_missing_positional is present, "
     "otherwise the positional the counter already points to); commands that first fill single-valued positionals "
     "after the `--` are covered by C05_trailing_loop_is_absorb/C05_trailing_outcome and the differential run",
@@ -241,8 +241,9 @@ def oracle(case, impl):
             break
     if chain is None:
         # no accepted run to read the chain from: only a command without any subcommand (declared or
-        # external) has a known chain
-        if cmd["subs"] or cmd.get("ext") or "allow_external_subcommands" in cmd["settings"]:
+        # external), or an empty prefix, has a known chain
+        no_prefix = len(pre) == (0 if "no_binary_name" in cmd["settings"] else 1)     # `--` is the first token
+        if not no_prefix and (cmd["subs"] or cmd.get("ext") or "allow_external_subcommands" in cmd["settings"]):
             STATS["judged:no(no ok run)"] += 1
             return None
         chain = []
